@@ -394,16 +394,14 @@ where
     D: Dimension,
 {
     pub fn new(data: ArrayBase<Sd, D>) -> Self {
-        let x = Array1::from_iter((0..data.shape().first().copied().unwrap_or(0)).map(|i| {
-            cast(i).unwrap_or_else(|| {
-                unimplemented!("casting from usize to a number should always work")
-            })
-        }));
-        let y = Array1::from_iter((0..data.shape().get(1).copied().unwrap_or(0)).map(|i| {
-            cast(i).unwrap_or_else(|| {
-                unimplemented!("casting from usize to a number should always work")
-            })
-        }));
+        // indices the element type can not represent are left out: `build` then reports
+        // the default axis as too short, and an axis set with `x()` / `y()` replaces it anyway
+        let x = Array1::from_iter(
+            (0..data.shape().first().copied().unwrap_or(0)).map_while(|i| cast(i)),
+        );
+        let y = Array1::from_iter(
+            (0..data.shape().get(1).copied().unwrap_or(0)).map_while(|i| cast(i)),
+        );
         Interp2DBuilder {
             x,
             y,
